@@ -137,6 +137,7 @@ pub fn dispatch(t: &[&str]) -> String {
         // (second frame of a two-frame run: no scene cut), as a NAL
         // C API through the extern "C" entry points
         "capi" => crate::capi::capi(t),
+        "capifile" => crate::capi::capifile(t),
         "genbase" => {
             use dolby_vision::rpu::generate::{GenerateConfig, GenerateProfile, VideoShot};
             use dolby_vision::rpu::vdr_dm_data::CmVersion;
